@@ -207,6 +207,12 @@ impl SessionPool {
         for seq in &to_remove {
             if let Some(pooled) = sessions.remove(seq) {
                 // Close the session
+                #[cfg(feature = "verif")]
+                crate::verif::emit(crate::verif::Event::PoolReap {
+                    session: pooled.session.id(),
+                    seq: *seq,
+                    already_closed: pooled.session.is_closed(),
+                });
                 if let Err(e) = pooled.session.close().await {
                     tracing::warn!("[SessionPool] Failed to close session {}: {}", seq, e);
                 }
@@ -281,6 +287,14 @@ impl SessionPool {
 
                 if !to_remove.is_empty() {
                     for seq in &to_remove {
+                        #[cfg(feature = "verif")]
+                        if let Some(pooled) = sessions.get(seq) {
+                            crate::verif::emit(crate::verif::Event::PoolReap {
+                                session: pooled.session.id(),
+                                seq: *seq,
+                                already_closed: pooled.session.is_closed(),
+                            });
+                        }
                         if let Some(pooled) = sessions.remove(seq)
                             && let Err(e) = pooled.session.close().await
                         {
